@@ -545,16 +545,17 @@ def merge_file_level(
 
         old_value, field = fields[name]
 
+        setattr(new, name, value)
         try:
+            # note, validators can store a normalised value
             validate_field(new, field, value)
         except Exception as exc:
+            setattr(new, name, old_value)
             warning(MystWarnings.MD_TOPMATTER, str(exc))
             continue
 
         if field.metadata.get("merge_topmatter"):
-            value = {**old_value, **value}
-
-        setattr(new, name, value)
+            setattr(new, name, {**old_value, **value})
 
     return new
 
